@@ -142,6 +142,41 @@ def gen_seq(rng):
     return steps, g.funcs
 
 
+def attribute_family():
+    """Systematic: every attribute set x every attribute removal x every kind of writer, at top level and on a function local
+    (with a callee writing to it): what the attribute does to the *next* writes is what the statement promises."""
+    out = []
+    sets = ["-u", "-l", "-x", "-ux", "-lx", "-a", "-ua", "-A", ""]
+    pluses = [None, "+u", "+l", "+x", "+ux"]
+    writers = [["A='Yy'"], ["A+='Zz'"], ["read A <<< 'Rr tail'"], ["printf -v A '%s-%s' 'Pp' k"], ["for A in p 'Ff'; do :; done"],
+               ["A[1]='Ee'"], ["A=('Gg' 'Hh')"], ["A+=('Ii')"], ["unset A", ": ${A:='Dd'}"], ["mapfile -t A <<< $'Mm\\nNn'"],
+               ["A='Tt' envdump -t x.t A"], ["export A", "A='Xx'"], ["declare A='Qq'"]]
+    for st in sets:
+        for pl in pluses:
+            for wr in writers:
+                n = [0]
+
+                def tag():
+                    n[0] += 1
+                    return "s%d" % n[0]
+                steps = []
+                for stp in ["declare %s A" % st if st else "A='init'"] + (["declare %s A" % pl] if pl else []) + wr + ["A+='Ww'"]:
+                    steps += [stp, "pr %s" % tag()]
+                out.append((steps, []))
+                # the same on a local of fn1, written by the callee fn2
+                body = ["local %s A" % st if st else "local A='init'"] + (["declare %s A" % pl] if pl else [])
+                fb = []
+                for stp in body:
+                    fb += [stp, "pr %s" % tag()]
+                fb += ["fn2", "pr %s" % tag()]
+                f2 = []
+                for stp in wr:
+                    f2 += [stp, "pr %s" % tag()]
+                funcs = ["fn1() {\n  %s\n}" % "\n  ".join(fb), "fn2() {\n  %s\n}" % "\n  ".join(f2)]
+                out.append((["fn1", "pr %s" % tag()], funcs))
+    return out
+
+
 def render(steps, funcs):
     return PRELUDE + "\n".join(f for f in funcs if f) + "\n" + "pr s0\n" + "\n".join(steps) + "\necho '@end'\n"
 
@@ -349,6 +384,19 @@ def run(run):
             run.count("skipped_region:" + reg)
             continue
         cases.append(c)
+    fam = attribute_family()
+    if quick:
+        rng.shuffle(fam)
+        fam = fam[: int(400 * scale)]
+    kept = 0
+    for c in fam:
+        reg = region(*c)
+        if reg:
+            run.count("skipped_region:" + reg)
+            continue
+        cases.append(c)
+        kept += 1
+    run.count("attribute_family_cases", kept)
     core.pmap(lambda c: judge(run, c), cases)
     run.sample({"script": render(*cases[0])})
 
